@@ -147,6 +147,11 @@ class ScalarFunction:
                 self.g = approx_derivative(
                     fun_wrapped, self.x, f0=self.f, **finite_diff_options
                 )
+                # A variable fixed by lb == ub cannot be perturbed: the step is zero
+                # and approx_derivative yields nan for it. That partial derivative is
+                # never needed (the variable cannot move), so report zero instead.
+                _lb, _ub = finite_diff_options["bounds"]
+                self.g = np.where(np.equal(_lb, _ub), 0.0, self.g)
 
         self._update_grad_impl = update_grad
 
